@@ -31,6 +31,7 @@ DISPLAY_ONLY = [
     ("m2::handle_tree", r"parse_embedded_skin\(|SkinFile::load\(", "tree view shows the skin's load error inline; the model itself was parsed with `?`"),
     ("m2::handle_skin_info_auto", r"fs::metadata\(", "file size for display only"),
     ("dbc::validate_command", r"get_string\(\*str_ref\)", "is_err() is the validation test itself; it feeds the issue counter"),
+    ("adt::execute_batch", r"^p$", "glob iteration errors (unreadable directory entries) are skipped; every matched file is processed and failures are counted into `failed`, which guards the final bail!"),
 ]
 
 FAIL_CALLS = re.compile(r"(process::exit)$")
@@ -235,6 +236,12 @@ def run(ctx):
                     ctx.ok(R_site, {"fn": fshort, "site": kind, "on": scr_short, "class": "decision", "reason": reason})
                     continue
                 if arm_body is not None:
+                    ab = hirq.strip(arm_body)
+                    while ab.get("k") == "block" and not ab.get("stmts") and ab.get("e"):
+                        ab = hirq.strip(ab["e"])
+                    if ab.get("k") == "call" and hirq.is_err_ctor(ab.get("fn")):
+                        ctx.ok(R_site, {"fn": fshort, "site": kind, "on": scr_short, "class": "re-wrapped into an Err value"})
+                        continue
                     d = diverges(arm_body)
                     if d:
                         ctx.ok(R_site, {"fn": fshort, "site": kind, "on": scr_short, "class": "propagates (%s)" % d})
